@@ -14,7 +14,7 @@ CONSTANTS
   GrantChoices <- NoGrant
   InitBal <- Bal2
   InitAllow <- Allow2
-  MaxOps = 4
+  MaxOps = 3
 VIEW view
 INVARIANTS TypeOK NonNeg Conserved
 PROPERTIES DebitAuthorized AllowanceRespected FailedCallIsNoOp CrossToken
